@@ -338,4 +338,41 @@ pub fn run(ctx: &Ctx) {
             check_sequence(&shape, &vals, *strip, g, l)
         },
     );
+    // long frames (several 254-byte COBS blocks, some cut short by zeros) followed by more frames
+    ctx.par_proptest(
+        "long-raw-frame-sequences",
+        n / 16,
+        || {
+            (
+                proptest::collection::vec(
+                    (prop_oneof![Just(508usize), Just(509), Just(762), 254usize..1300], prop_oneof![Just(0u32), Just(1), 2u32..12, Just(40)], any::<u64>()),
+                    2..=4,
+                ),
+                any::<bool>(),
+                proptest::collection::vec(any::<u8>(), 0..4),
+            )
+        },
+        |(specs, strip, g), l| {
+            let n = specs.iter().map(|s| s.0).max().unwrap_or(0);
+            let shape = Shape::Tuple(vec![Shape::U8; n]);
+            let vals: Vec<Value> = specs
+                .iter()
+                .map(|(_, zeros, seed)| {
+                    // non-zero filler with `zeros` zero bytes at positions derived from the seed
+                    let mut m: Vec<u8> = (0..n).map(|k| 1 + ((k as u64).wrapping_mul(31).wrapping_add(*seed) % 255) as u8).collect();
+                    let mut x = *seed | 1;
+                    for _ in 0..*zeros {
+                        x = x.wrapping_mul(6364136223846793005).wrapping_add(1442695040888963407);
+                        let pos = (x >> 33) as usize % n.max(1);
+                        if n > 0 {
+                            m[pos] = 0;
+                        }
+                    }
+                    Value::List(m.into_iter().map(|b| Value::U(b as u128)).collect())
+                })
+                .collect();
+            l.class("long-frame-sequence");
+            check_sequence(&shape, &vals, *strip, g, l)
+        },
+    );
 }
